@@ -503,6 +503,27 @@ func C17(tier string) int {
 			items = append(items, item{v: v, desc: fmt.Sprintf("%s#%d", rt.String(), i)})
 		}
 	}
+	// wide containers: sizes around the thresholds at which an implementation may change regime (chunking, parallel
+	// copies, map growth)
+	for _, n := range []int{63, 64, 65, 66, 67, 130} {
+		bs := &schema.BlockSchema{Labels: []*schema.LabelSchema{{Name: "type", IsDepKey: true}}, DependentBody: map[schema.SchemaKey]*schema.BodySchema{}}
+		body := &schema.BodySchema{Attributes: map[string]*schema.AttributeSchema{}, Blocks: map[string]*schema.BlockSchema{}}
+		oa := schema.ObjectAttributes{}
+		fs := &schema.FunctionSignature{ReturnType: cty.String}
+		tg := &schema.Targetable{Address: lang.Address{lang.RootStep{Name: "t"}}}
+		for i := 0; i < n; i++ {
+			name := fmt.Sprintf("n%03d", i)
+			bs.DependentBody[schema.NewSchemaKey(schema.DependencyKeys{Labels: []schema.LabelDependent{{Index: 0, Value: name}}})] = &schema.BodySchema{Detail: name}
+			body.Attributes[name] = &schema.AttributeSchema{Constraint: schema.LiteralType{Type: cty.String}, IsOptional: true, Description: lang.Markdown(name)}
+			body.Blocks[name] = &schema.BlockSchema{Description: lang.Markdown(name)}
+			oa[name] = &schema.AttributeSchema{Constraint: schema.LiteralType{Type: cty.String}, IsOptional: true}
+			fs.Params = append(fs.Params, function.Parameter{Name: name, Type: cty.String})
+			tg.NestedTargetables = append(tg.NestedTargetables, &schema.Targetable{Address: lang.Address{lang.RootStep{Name: "t"}, lang.AttrStep{Name: name}}, AsType: cty.String})
+		}
+		for _, v := range []any{bs, body, oa, fs, tg} {
+			items = append(items, item{v: reflect.ValueOf(v), desc: fmt.Sprintf("wide %T (%d entries)", v, n)})
+		}
+	}
 	// constraints as roots: the whole universe (depth 2 in thorough)
 	cdepth := 1
 	if tier == "thorough" {
